@@ -11,6 +11,27 @@ CHECKS = {
          "Every pair of a 96x96 semantic-version grid plus non-semver builds, absent and malformed versions is executed through the real build command (and 28 runs of 4 really linked binaries); the verdict is compared with a hand-written truth table of the statement. The space named by the quantifier is finite and is enumerated completely, so this is exhaustive for the grid, nothing above it.",
          "trusted: hand-written semver recogniser (oracle); in-process cmd.NewBuildCmd stands for the binary except for main.go's v-stripping, which the linked binaries cover",
          "3/C18", "CFG-X"),
+
+ "C06": ("exploration",
+         "bounded-exhaustive enumeration of all subsets of reference positions made dangling, executed on the real command",
+         "All 2^12 subsets of the twelve reference positions (parameter, service and decorator referrers; single-chunk, multi-chunk, after %%) x 3 declared-ness variants of the targets are run through the real pipeline; acceptance must equal 'subset empty', every dangling reference must be reported by the right rule naming referrer and missing name, and nothing declared may be reported. Exhaustive over the position set; the base configuration is fixed.",
+         "trusted: the abstract base configuration and the content-based matching of diagnostics (rule prefix + referrer token + quoted missing name)",
+         "3/C06", "CFG-X"),
+ "C07": ("exploration",
+         "bounded-exhaustive enumeration of all dependency edge sets up to k atoms with an independent reachability oracle",
+         "Every set of <=3 (quick) / <=5 (thorough, 1.2M configurations) of 44 edge atoms over 3 services, 2 tags, 2 decorators, 3 parameters, all 512 parameter graphs in two realisations, all 512 service graphs and the 6-atom tag/decorator chains are run through the real pipeline; cyclic <=> rejected, every element on a cycle is shown, every reported line is a closed walk checked edge by edge.",
+         "trusted: own graph construction from the abstract atoms (never from the YAML) and own reachability code",
+         "3/C07", "CFG-X"),
+ "C16": ("exploration",
+         "bounded-exhaustive enumeration of defect mixes x all four flag combinations, differential against the no-flag run",
+         "All subsets of <=5 (quick) / all 1024 (thorough) of 10 injected defects x the 4 flag combinations on the real command: under a flag the ordered diagnostics must equal the no-flag diagnostics minus the ignored class, verdict = 'nothing remains', accepted configurations give byte-identical output under all flags; an independent expectation checks that each defect's class appears in the no-flag run.",
+         "trusted: classification of diagnostics by the rule prefix printed by the tool",
+         "3/C16", "CFG-X"),
+ "C19": ("exploration",
+         "execution of the complete (finite) generation history of the self-configuration",
+         "tool0 built from the tree regenerates internal/gontainer/gontainer.go (must equal the checked-in file modulo the version line), a tool rebuilt with the regenerated file must reproduce it (2 generations quick, 3 thorough), the in-process command must agree with the binary, and the --stub variant must build with the tag. The quantified space is this one chain; it is walked completely.",
+         "trusted: go build of scratch copies of the tree",
+         "3/C19", "CFG-X"),
 }
 
 NOT_YET = {
